@@ -53,6 +53,8 @@ var boundedRegistry = map[string][]boundedSpec{
 		What: "stands in for the destinations whose decoders are not under a frame contract (struct, map, interface, embedded fields, byte slices, nested combinations) and for the traversability of the destination after failed decodes"}},
 	"C09": {{Name: "stream decoding against one-piece and buffer decoding", Pkg: ".", Template: "json_stream_chunks.go",
 		What: "stands in for the refill-and-retry branches of the stream scanners that are not under contract (numbers, strings, containers, keys, skip functions) and for stream = buffer agreement"}},
+	"C11": {{Name: "history independence", Pkg: ".", Template: "json_history.go",
+		What: "stands in for the cross-call state that the initialisation contracts do not reach (opcode programs and decoders cached per type, pooled buffers deeper in the interpreters, Path/Encoder/Decoder objects after errors)"}},
 	"C12": {{Name: "aliasing scenarios", Pkg: ".", Template: "json_alias.go",
 		What: "stands in for the aliasing of decoded values and returned slices deeper inside the library (RawMessage, []byte, strings, UnmarshalJSON payloads, marshaler output, pooled buffers, Decoder history), which the entry-point contracts do not follow"}},
 	"C15": {{Name: "struct key selection against encoding/json", Pkg: ".", Template: "json_keymatch.go",
